@@ -42,6 +42,9 @@ func (Engine) Generate(property, scenario string, seed uint64, tier string) *sim
 	c["short"] = int64(simkit.Pick(r, []int{0, 1, 9}))
 	c["delay_us"] = int64(simkit.Pick(r, []int{0, 0, 100}))
 	c["sched_sticky"] = int64(simkit.Pick(r, []int{0, 60}))
+	// Bounded pipes: a write blocks when the pipe is full, and a write cut off
+	// by a reset has then already put part of its buffer on the wire.
+	c["linkcap"] = int64(simkit.Pick(r, []int{0, 0, 16, 300}))
 	n := r.Range(1, 6)
 	if tier == "thorough" {
 		n = r.Range(1, 16)
@@ -224,7 +227,7 @@ type harness struct {
 
 func (h *harness) linkOpts(key string) simkit.LinkOpts {
 	c := h.plan.Cfg
-	o := simkit.LinkOpts{FragMax: int(c["frag"]), ShortMax: int(c["short"]), Delay: time.Duration(c["delay_us"]) * time.Microsecond}
+	o := simkit.LinkOpts{FragMax: int(c["frag"]), ShortMax: int(c["short"]), Delay: time.Duration(c["delay_us"]) * time.Microsecond, Capacity: int(c["linkcap"])}
 	for _, f := range h.s.FaultsOfKind("reset") {
 		if f.Key == key {
 			o.CutAt = map[string]int{"ab": int(f.Arg), "ba": int(f.Arg)}
@@ -604,6 +607,14 @@ func (h *harness) finalChecks(mgr *forwarding.Manager, sel *selection.Selection)
 	st := states[0]
 	if st.OpenConnections != 0 && h.allDone() {
 		s.Violate("C33", "open-connection-count", "state", "all connections are finished but the session reports %d open connections", st.OpenConnections)
+	}
+	// Whatever happened to a connection, every byte a peer received went through
+	// the forwarder and was counted on the way (a write that failed after
+	// putting part of its buffer on the wire still forwarded that part).
+	// (Unless the forwarding loop was restarted by a pause, a transport failure or
+	// a termination: the statistics start again from zero with each loop.)
+	if !h.disturbed && st.TotalInboundData+st.TotalOutboundData < delivered {
+		s.Violate("C33", "byte-count-below-delivered", "state", "the peers received %d bytes in total, the session statistics count only %d inbound + %d outbound", delivered, st.TotalInboundData, st.TotalOutboundData)
 	}
 	if clean && st.Status == forwarding.Status_ForwardingConnections {
 		if st.TotalConnections != uint64(h.paired) {
